@@ -304,6 +304,38 @@ pub fn fuzz_stage<P: PatProp>(ctx: &RunCtx, o: &mut Outcome, p: &P, target: &str
     }
 }
 
+/// coverage-guided campaign of the generic target `fuzz_prop` with the oracle of property `name` inside the
+/// target; artifacts are re-checked in-process (a pattern-level failure is shrunk like any other)
+pub fn fuzz_prop_stage<P: PatProp>(ctx: &RunCtx, o: &mut Outcome, p: Option<&P>, name: &str, runs: u64) {
+    if !o.violations.is_empty() || o.infra_error.is_some() {
+        return;
+    }
+    let seeds = crate::fuzzrun::byte_seeds(ctx, 64, 48);
+    match crate::fuzzrun::campaign_env(ctx, "fuzz_prop", Some(name), 16, runs, 96, &seeds) {
+        Ok(c) => {
+            o.stats.evaluations += c.runs_done;
+            o.extra.insert(format!("fuzz:{}", name), c.evidence);
+            for a in c.artifacts {
+                let data = std::fs::read(&a).unwrap_or_default();
+                let hit = match p {
+                    Some(p) => crate::fuzzdec::prop_found(name, &data).map(|found| finish(ctx, p, found)),
+                    None => crate::fuzzdec::prop_violation(name, &data).map(|(case, fail)| Violation { case, fail }),
+                };
+                match hit {
+                    Some(v) => {
+                        o.violations.push(v);
+                        return;
+                    }
+                    None => {
+                        o.infra_error = Some(format!("libFuzzer artifact {} is not reproduced by the in-process oracle (harness trouble or sanitizer-only report): inconclusive", a.display()));
+                    }
+                }
+            }
+        }
+        Err(e) => o.infra_error = Some(e),
+    }
+}
+
 // ---------------------------------------------------------------------------------------------
 // C09
 
